@@ -150,3 +150,11 @@ func isBenignTxErr(err error) bool {
 		errors.Is(err, store.ErrMaxActiveTransactionsLimitExceeded) || strings.Contains(err.Error(), "too many active snapshots") ||
 		strings.Contains(err.Error(), "non-transient key to transient") // a statement the store refuses, without effect
 }
+
+func mapKeys(m map[string]string) []string {
+	out := make([]string, 0, len(m))
+	for k := range m {
+		out = append(out, k)
+	}
+	return out
+}
